@@ -46,6 +46,10 @@ type script struct {
 
 	RegistrationTimeoutMs int64
 	RequestTimeoutMs      int64
+
+	// OnConfigured runs (in the runtime end's goroutine) as soon as Configure was answered without error,
+	// before Synchronize is sent: what a runtime does with a plugin it now considers ready
+	OnConfigured func(*session)
 }
 
 func healthyScript() script {
@@ -293,6 +297,9 @@ func (s *session) afterRegister() {
 		time.Sleep(50 * time.Millisecond)
 		s.cc.kill()
 		return
+	}
+	if s.cfgErr == nil && s.sc.OnConfigured != nil {
+		s.sc.OnConfigured(s)
 	}
 	if s.cfgErr != nil {
 		if s.sc.AfterCfgErr == "drop" {
